@@ -1,5 +1,6 @@
 pub mod chunk;
 pub mod common;
+pub mod crypt;
 pub mod hostile;
 pub mod iofault;
 pub mod prog;
@@ -16,9 +17,12 @@ pub static ALIGN: Roundtrip = Roundtrip { mode: Mode::C17 };
 pub static CHUNKING: chunk::Chunking = chunk::Chunking;
 pub static IOFAULT: iofault::IoFault = iofault::IoFault;
 pub static HOSTILE: hostile::Hostile = hostile::Hostile;
+pub static BITROT: crypt::Bitrot = crypt::Bitrot;
+pub static AES: crypt::AesSc = crypt::AesSc;
+pub static ZIPCRYPTO: crypt::ZipCryptoSc = crypt::ZipCryptoSc;
 
 pub fn all() -> Vec<&'static dyn Scenario> {
-    vec![&ROUNDTRIP, &ROUNDTRIP_FULL, &STATEMACHINE, &APPEND, &RAWCOPY, &ALIGN, &CHUNKING, &IOFAULT, &HOSTILE]
+    vec![&ROUNDTRIP, &ROUNDTRIP_FULL, &STATEMACHINE, &APPEND, &RAWCOPY, &ALIGN, &CHUNKING, &IOFAULT, &HOSTILE, &BITROT, &AES, &ZIPCRYPTO]
 }
 
 pub fn lookup(name: &str) -> Option<&'static dyn Scenario> {
@@ -39,12 +43,15 @@ pub fn props() -> Vec<PropCfg> {
     vec![
         PropCfg { id: "C01", level: "exploration", scenarios: vec![&ROUNDTRIP], assumptions: vec![A_MODEL, A_CODEC] },
         PropCfg { id: "C02", level: "exploration", scenarios: vec![&ROUNDTRIP_FULL], assumptions: vec!["independent parser written from APPNOTE is the judge", A_CODEC, "literal 0xFFFF/0xFFFFFFFF without ZIP64 accepted"] },
+        PropCfg { id: "C04", level: "fault_enumeration", scenarios: vec![&BITROT], assumptions: vec![A_CODEC, "own CRC-32 implementation recomputes the checksum of the returned bytes", "AE-2 entries are exempt (covered by C16)"] },
         PropCfg { id: "C05", level: "exploration", scenarios: vec![&HOSTILE], assumptions: vec!["heap bound while opening: 1024 x input length + 8 MiB, measured by a counting global allocator (R9)", "step budget 4M + 16 x length I/O calls per handle; a wall-clock watchdog covers loops that perform no I/O", "harness built with overflow-checks and debug-assertions on"] },
         PropCfg { id: "C09", level: "exploration", scenarios: vec![&CHUNKING], assumptions: vec![A_CODEC, "the unfragmented (Pure policy) execution is the reference outcome"] },
         PropCfg { id: "C11", level: "fault_enumeration", scenarios: vec![&IOFAULT], assumptions: vec![A_CODEC, "'identical to the failure-free run' is judged on entries/metadata/contents/comment, not on bytes (R7)", "programs end with an explicit finish(), so that no error is swallowed by Drop"] },
         PropCfg { id: "C12", level: "exploration", scenarios: vec![&STATEMACHINE], assumptions: vec![A_MODEL, A_CODEC, "after a failed state-changing call the model only constrains what the property states (R6)"] },
         PropCfg { id: "C13", level: "exploration", scenarios: vec![&APPEND], assumptions: vec![A_MODEL, A_CODEC, "the crate's own reading of a foreign base archive is the reference for 'unchanged' (reader fidelity is C03's job)"] },
         PropCfg { id: "C14", level: "exploration", scenarios: vec![&RAWCOPY], assumptions: vec![A_MODEL, A_CODEC, "source entries are described by the independent parser"] },
+        PropCfg { id: "C15", level: "exploration", scenarios: vec![&ZIPCRYPTO], assumptions: vec![A_CODEC, "independent PKWARE cipher written from the APPNOTE pseudo-code with its own CRC table", "a wrong password passing the 1-byte check is legal (R5): it must then fail by EOF or return the original bytes"] },
+        PropCfg { id: "C16", level: "fault_enumeration", scenarios: vec![&AES], assumptions: vec![A_CODEC, "independent WinZip-AES composition (PBKDF2-HMAC-SHA1, AES-CTR little-endian counter, HMAC-SHA1-80) validated at start-up against the third-party fixture in /repo/tests/data", "empty entries carry no tamper obligation (the property says non-empty)"] },
         PropCfg { id: "C17", level: "exploration", scenarios: vec![&ALIGN], assumptions: vec![A_MODEL, A_CODEC] },
     ]
 }
